@@ -178,6 +178,7 @@ Section EncTotal.
   Proof.
     intros Hs. pose proof Hs as (Hi & Hc & Hk & Hl & Hfull & Hb).
     unfold EncLayer.eseek_start, notag2tag, EncLayer.CTS.
+    destruct (_ <? p / CHUNK); [split; [exact Hs|discriminate]|].
     destruct (notag_div p) as [-> ->].
     pose proof (tame_sk _ _ _ _ HT (e_in s) (FromStart (p / CHUNK * CTS)) Hi) as H1.
     destruct (sk S (e_in s) (FromStart (p / CHUNK * CTS))) as [i' [q|e|c]] eqn:Esk; [| |exact H1].
@@ -199,7 +200,76 @@ Section EncTotal.
       apply Ienc_move_inner; [exact Hs|exact Hi'|]. intros Hne. rewrite Hsame. exact (proj1 (Hb Hne)).
   Qed.
 
-  (* Seek::seek: every whence, any argument *)
+  (* Seek::seek: every whence, any argument.  The one panic site is `i64::try_from(current).unwrap()` of the Current
+     arm (524): position >= 2^63, nothing touched. *)
+  Lemma eseek_tame_gen s w : Ienc s ->
+    match eseek s w with
+    | (s', Ok q) => Ienc s' /\ (forall p, w = FromStart p -> pos_enc s' = p)
+    | (s', Err e) => Ienc s' /\ e <> EFuel
+    | (s', Crash c) => s' = s /\ c = 524 /\ 2 ^ 63 <= pos_enc s
+    end.
+  Proof.
+    intros Hs. pose proof Hs as (Hi & Hc & Hk & Hl & Hfull & Hb).
+    unfold EncLayer.eseek. destruct w as [p|d|d].
+    - pose proof (eseek_start_tame s p Hs) as H.
+      destruct (eseek_start s p) as [s' [q|e|c]]; [|exact H|destruct H].
+      destruct H as (Hs' & Hp & _). split; [exact Hs'|]. intros p' E; injection E as <-. exact Hp.
+    - destruct (d =? 0)%Z; [split; [exact Hs|intros; discriminate]|].
+      destruct (N.leb_spec (2 ^ 63) (e_chunk s * CHUNK + e_cpos s)) as [Hcrash|_]; [auto|].
+      unfold seek_target. destruct (Z.of_N (e_chunk s * CHUNK + e_cpos s) + d <? 0)%Z; [split; [exact Hs|discriminate]|].
+      pose proof (eseek_start_tame s (Z.to_N (Z.of_N (e_chunk s * CHUNK + e_cpos s) + d)) Hs) as H.
+      destruct (eseek_start s (Z.to_N (Z.of_N (e_chunk s * CHUNK + e_cpos s) + d))) as [s' [q|e|c]]; [|exact H|destruct H].
+      split; [exact (proj1 H)|intros; discriminate].
+    - destruct (0 <? d)%Z; [split; [exact Hs|discriminate]|].
+      pose proof (tame_sk _ _ _ _ HT (e_in s) (FromEnd 0) Hi) as H1.
+      destruct (sk S (e_in s) (FromEnd 0)) as [i' [endi|e|c]] eqn:Esk; [| |destruct H1].
+      + destruct H1 as [Hi' _].
+        destruct (ti_sk_end _ _ _ _ HTI _ _ _ Hi Esk) as [Hpe _].
+        assert (Hs1 : Ienc (mkE i' (e_cache s) (e_cpos s) (e_chunk s))).
+        { apply Ienc_move_inner; [exact Hs|exact Hi'|]. intros Hne. rewrite Hpe. exact (proj2 (Hb Hne)). }
+        unfold end_pos_of_inner.
+        destruct (endi mod EncLayer.CTS CHUNK TAG =? 0).
+        * destruct (2 ^ 63 <=? _); [split; [exact Hs1|discriminate]|].
+          destruct (negb (i64_fits _)); [split; [exact Hs1|discriminate]|].
+          unfold seek_target. destruct (_ <? 0)%Z; [split; [exact Hs1|discriminate]|].
+          match goal with |- context [eseek_start ?a ?b] => pose proof (eseek_start_tame a b Hs1) as H;
+            destruct (eseek_start a b) as [s' [q|e|c]]; [|exact H|destruct H] end.
+          split; [exact (proj1 H)|intros; discriminate].
+        * destruct (endi mod EncLayer.CTS CHUNK TAG <? TAG); [split; [exact Hs1|discriminate]|].
+          destruct (2 ^ 63 <=? _); [split; [exact Hs1|discriminate]|].
+          destruct (negb (i64_fits _)); [split; [exact Hs1|discriminate]|].
+          unfold seek_target. destruct (_ <? 0)%Z; [split; [exact Hs1|discriminate]|].
+          match goal with |- context [eseek_start ?a ?b] => pose proof (eseek_start_tame a b Hs1) as H;
+            destruct (eseek_start a b) as [s' [q|e|c]]; [|exact H|destruct H] end.
+          split; [exact (proj1 H)|intros; discriminate].
+      + destruct H1 as [Hi' He]. split; [|exact He].
+        pose proof (ti_sk_err _ _ _ _ HTI _ _ _ _ Hi Esk) as Hsame.
+        apply Ienc_move_inner; [exact Hs|exact Hi'|]. intros Hne. rewrite Hsame. exact (proj1 (Hb Hne)).
+  Qed.
+
+  (* whatever a seek returns (the panic included), the state it leaves is in the invariant *)
+  Lemma eseek_keeps_Ienc s w : Ienc s -> Ienc (fst (eseek s w)).
+  Proof.
+    intros Hs. pose proof (eseek_tame_gen s w Hs) as H.
+    destruct (eseek s w) as [s' [q|e|c]]; cbn [fst]; [exact (proj1 H)|exact (proj1 H)|].
+    destruct H as [-> _]. exact Hs.
+  Qed.
+
+  (* the reader's position stays below 2^32 * CHUNK (the chunk number is a u32) *)
+  Lemma pos_enc_lt s : Ienc s -> pos_enc s < 2 ^ 32 * CHUNK.
+  Proof.
+    intros (Hi & Hc & Hk & Hl & Hfull & Hb). unfold pos_enc.
+    destruct (N.eq_dec (e_cpos s) CHUNK) as [E|E].
+    - specialize (Hfull E). destruct Hb as [_ Hb]; [lia|]. rewrite E. lia.
+    - nia.
+  Qed.
+
+  Section Seek31.
+  (* CHUNK_SIZE <= 2^31 (production 2^17, scaled 2^6): the reader's position, chunk number (a u32) * CHUNK + cache
+     position, then stays below 2^63, so `i64::try_from(current).unwrap()` in the SeekFrom::Current arm cannot
+     panic.  A premise of eseek_tame and enc_reader_tame only. *)
+  Hypothesis HC31 : CHUNK <= 2 ^ 31.
+
   Lemma eseek_tame s w : Ienc s ->
     match eseek s w with
     | (s', Ok q) => Ienc s' /\ (forall p, w = FromStart p -> pos_enc s' = p)
@@ -207,37 +277,10 @@ Section EncTotal.
     | (_, Crash _) => False
     end.
   Proof.
-    intros Hs. pose proof Hs as (Hi & Hc & Hk & Hl & Hfull & Hb).
-    unfold EncLayer.eseek. destruct w as [p|d|d].
-    - pose proof (eseek_start_tame s p Hs) as H.
-      destruct (eseek_start s p) as [s' [q|e|c]]; [|exact H|exact H].
-      destruct H as (Hs' & Hp & _). split; [exact Hs'|]. intros p' E; injection E as <-. exact Hp.
-    - destruct (d =? 0)%Z; [split; [exact Hs|intros; discriminate]|].
-      unfold seek_target. destruct (Z.of_N (e_chunk s * CHUNK + e_cpos s) + d <? 0)%Z; [split; [exact Hs|discriminate]|].
-      pose proof (eseek_start_tame s (Z.to_N (Z.of_N (e_chunk s * CHUNK + e_cpos s) + d)) Hs) as H.
-      destruct (eseek_start s (Z.to_N (Z.of_N (e_chunk s * CHUNK + e_cpos s) + d))) as [s' [q|e|c]]; [|exact H|exact H].
-      split; [exact (proj1 H)|intros; discriminate].
-    - destruct (0 <? d)%Z; [split; [exact Hs|discriminate]|].
-      pose proof (tame_sk _ _ _ _ HT (e_in s) (FromEnd 0) Hi) as H1.
-      destruct (sk S (e_in s) (FromEnd 0)) as [i' [endi|e|c]] eqn:Esk; [| |exact H1].
-      + destruct H1 as [Hi' _].
-        destruct (ti_sk_end _ _ _ _ HTI _ _ _ Hi Esk) as [Hpe _].
-        assert (Hs1 : Ienc (mkE i' (e_cache s) (e_cpos s) (e_chunk s))).
-        { apply Ienc_move_inner; [exact Hs|exact Hi'|]. intros Hne. rewrite Hpe. exact (proj2 (Hb Hne)). }
-        unfold end_pos_of_inner.
-        destruct (endi mod EncLayer.CTS CHUNK TAG =? 0).
-        * unfold seek_target. destruct (_ <? 0)%Z; [split; [exact Hs1|discriminate]|].
-          match goal with |- context [eseek_start ?a ?b] => pose proof (eseek_start_tame a b Hs1) as H;
-            destruct (eseek_start a b) as [s' [q|e|c]]; [|exact H|exact H] end.
-          split; [exact (proj1 H)|intros; discriminate].
-        * destruct (endi mod EncLayer.CTS CHUNK TAG <? TAG); [split; [exact Hs1|discriminate]|].
-          unfold seek_target. destruct (_ <? 0)%Z; [split; [exact Hs1|discriminate]|].
-          match goal with |- context [eseek_start ?a ?b] => pose proof (eseek_start_tame a b Hs1) as H;
-            destruct (eseek_start a b) as [s' [q|e|c]]; [|exact H|exact H] end.
-          split; [exact (proj1 H)|intros; discriminate].
-      + destruct H1 as [Hi' He]. split; [|exact He].
-        pose proof (ti_sk_err _ _ _ _ HTI _ _ _ _ Hi Esk) as Hsame.
-        apply Ienc_move_inner; [exact Hs|exact Hi'|]. intros Hne. rewrite Hsame. exact (proj1 (Hb Hne)).
+    intros Hs. pose proof (eseek_tame_gen s w Hs) as H.
+    destruct (eseek s w) as [s' [q|e|c]]; [exact H|exact H|].
+    destruct H as (_ & _ & Hcrash). pose proof (pos_enc_lt s Hs) as Hlt.
+    change (2 ^ 63) with (2 ^ 32 * 2 ^ 31) in Hcrash. nia.
   Qed.
 
   (* C08 item 5: the encryption layer reader is a tame stream *)
@@ -250,6 +293,7 @@ Section EncTotal.
       destruct H as (H1 & H2 & _). split; assumption.
     - intros s w Hs. cbn [EncReader sk st]. apply eseek_tame; exact Hs.
   Qed.
+  End Seek31.
 
   (* EncryptionLayerReader::new + initialize *)
   Theorem enc_open_tame i0 : Iin i0 ->
